@@ -38,6 +38,8 @@ type Gen struct {
 	sentinels     map[string]int
 	sliceDataOf   map[string]sliceDataInfo
 	fnIndex       map[string]*ssa.Function
+	funcPats      []string
+	instShort     map[string]*ssa.Function // instantiations of generic functions of the repository, by short name
 	mu            sync.Mutex
 	reachCache    map[string]string
 	repo          string
@@ -67,6 +69,15 @@ func (g *Gen) contractFor(d callDesc) *Contract {
 		return ct
 	}
 	return nil
+}
+
+func (g *Gen) isFunction(d callDesc) bool {
+	for _, p := range g.funcPats {
+		if globMatch(p, d.full) {
+			return true
+		}
+	}
+	return false
 }
 
 func (g *Gen) isPure(d callDesc) bool {
@@ -227,6 +238,10 @@ func (g *Gen) loadContracts() error {
 			if l == "" || strings.HasPrefix(l, "#") {
 				continue
 			}
+			if strings.HasPrefix(l, "function ") {
+				g.funcPats = append(g.funcPats, strings.TrimSpace(strings.TrimPrefix(l, "function ")))
+				continue
+			}
 			g.purePats = append(g.purePats, strings.TrimSpace(strings.TrimPrefix(l, "pure ")))
 		}
 	}
@@ -299,12 +314,18 @@ func (g *Gen) load(patterns []string) error {
 		g.pkgsByName[p.Pkg.Name()] = append(g.pkgsByName[p.Pkg.Name()], p)
 	}
 	g.fnIndex = map[string]*ssa.Function{}
+	g.instShort = map[string]*ssa.Function{}
 	for fn := range ssautil.AllFunctions(prog) {
 		if fn.Origin() != nil {
 			// an instantiation of a generic function can be put under contract by its instantiated name, e.g.
 			// numericTypeConverterFunc[uint64] (its SSA body is specialised to the type argument)
 			if _, taken := g.fnIndex[fn.String()]; !taken && len(fn.Blocks) > 0 {
 				g.fnIndex[fn.String()] = fn
+				// ... and by its short name, so that a contract can write the type argument without its import path:
+				// (*StaticIterator[*v1.Tuple]).Next
+				if fn.Pkg == nil || strings.HasPrefix(fn.Pkg.Pkg.Path(), repoModule) {
+					g.instShort[shortDesc(fn.String())] = fn
+				}
 			}
 			continue
 		}
@@ -333,6 +354,14 @@ func shortFnName(fn *ssa.Function) string {
 
 func (g *Gen) verifyFunc(ct *Contract) (fg *FnGen, err error) {
 	fn := g.fnIndex[ct.fullKey()]
+	if fn == nil && strings.Contains(ct.Key, "[") {
+		fn = g.instShort[shortDesc(ct.fullKey())]
+		if fn == nil && os.Getenv("GOVC_TRACE") != "" {
+			for k := range g.instShort {
+				fmt.Fprintln(os.Stderr, "instantiation:", k)
+			}
+		}
+	}
 	if fn == nil {
 		return nil, fmt.Errorf("contract %s: function %s not found in the tree under test", ct.File, ct.fullKey())
 	}
@@ -1068,6 +1097,10 @@ func cmdCheck(args []string) int {
 			sel = append(sel, c)
 			if c.Dir != "" {
 				pkgSet["./"+filepath.ToSlash(c.Dir)] = true
+			}
+			// `option needs_pkg <dir>`: the instantiation of a generic function exists only where it is used
+			for _, d := range strings.Fields(c.Options["needs_pkg"]) {
+				pkgSet["./"+d] = true
 			}
 		}
 	}
